@@ -365,7 +365,10 @@ func C16(tier Tier) int {
 				donorCfg.Schedule = world.PrimeSchedule(0)
 				donor, derr := world.NewEnv(donorCfg)
 				if derr != nil {
-					panic(derr)
+					// a second factory refused a schedule the first one accepted (construction depends
+					// on what was decoded before): the schedule is accepted, so this is a pricing defect
+					e.Fail(P, "pricing", "second-factory-refuses-accepted-schedule", fmt.Sprintf("after the schedule changes [%s] a factory built with the construction schedule (all entries non-zero) is refused: %v", label, derr), "case", label)
+					continue
 				}
 				for si, se := range env.Shards {
 					for _, name := range []string{vmcommon.BuiltInFunctionChangeOwnerAddress, vmcommon.BuiltInFunctionClaimDeveloperRewards} {
